@@ -20,7 +20,7 @@ SOLVERS = {
     "cvc5": lambda path, t: ["cvc5", "--lang", "smt2", "--produce-models", "--tlimit=%d" % (t * 1000), path],
 }
 MAXSPLIT = 6
-_pool = ThreadPoolExecutor(max_workers=int(os.environ.get("VERIF_JOBS", "12")))
+_pool = ThreadPoolExecutor(max_workers=int(os.environ.get("VERIF_JOBS", "4")))
 STATS = dict(queries=0, solver_s=0.0, closed_without_solver=0, by_verdict={})
 
 def _num(c):
